@@ -6,6 +6,9 @@ import json, os, subprocess, sys, glob, time
 fallback = {  # changes whose violation is only observable through another property's check
  "C11-m3": ["C13"], "C11-w2m3": ["C13"],   # Channel.write without its default branch: the node blocks (C13)
  "C02-w3m2": ["C15"], "C16-w3m2": ["C15"], # state shared between goroutines: a data race (C15)
+ "C09-w4m2": ["C15"], "C16-w4m2": ["C15"], # the same: package-level scratch buffer, shared prototype message
+ "C10-w4m1": ["C14"],                       # read deadline not armed afresh per call (C14's deadline oracle)
+ "C10-w4m3": ["C14"], "C13-w4m1": ["C14"],  # read fault while the writer is blocked in a deadline-less write: no close event (C14)
 }
 pref = sys.argv[1] if len(sys.argv) > 1 else ""
 out = {}
